@@ -194,6 +194,7 @@ fn c07_error_within_total() {
         .within("subframe_coding");
     let r: Result<(), VerifyError> = Err(e);
     assert!(r.is_err());
+    kani::cover!(r.is_err());
 }
 
 // ================================================================================================
@@ -272,7 +273,7 @@ fn c07_stereo_coding_exact() {
 // ================================================================================================
 
 /// Fixed: accepted <=> max_order <= 4 AND order_sel accepted.
-//@ unit props=C07 tier=quick kind=complete timeout=300 funcs="Fixed::verify" stubs="OrderSel::verify -> contract_order_sel_verify (arbitrary recorded verdict; exactness is c07_order_sel_exact)" finding=F-C07-unchained-verify
+//@ unit props=C07 tier=quick kind=complete timeout=300 funcs="Fixed::verify" stubs="OrderSel::verify -> contract_order_sel_verify (arbitrary recorded verdict; exactness is c07_order_sel_exact)"
 #[kani::proof]
 #[kani::unwind(6)]
 #[kani::stub(std::fmt::format, stub_format)]
@@ -325,7 +326,7 @@ fn c07_qlpc_exact() {
 }
 
 /// SubFrameCoding has only flags of its own: accepted <=> fixed, qlpc and prc are all accepted.
-//@ unit props=C07 tier=quick kind=complete timeout=300 funcs="SubFrameCoding::verify" stubs="Fixed::verify -> contract_fixed_verify (c07_fixed_exact); Qlpc::verify -> contract_qlpc_verify (c07_qlpc_exact); Prc::verify -> contract_prc_verify (c07_prc_exact)" finding=F-C07-unchained-verify
+//@ unit props=C07 tier=quick kind=complete timeout=300 funcs="SubFrameCoding::verify" stubs="Fixed::verify -> contract_fixed_verify (c07_fixed_exact); Qlpc::verify -> contract_qlpc_verify (c07_qlpc_exact); Prc::verify -> contract_prc_verify (c07_prc_exact)"
 #[kani::proof]
 #[kani::unwind(6)]
 #[kani::stub(std::fmt::format, stub_format)]
@@ -425,7 +426,7 @@ fn c07_default_is_valid() {
 /// values; the TOP-LEVEL `Encoder::verify` must accept exactly the in-range ones.  Redundant with
 /// the compositional units, kept as a direct witness for the finding (partitions = 0 and
 /// fixed.max_order = 100 are accepted by the unchanged tree).
-//@ unit props=C07 tier=quick kind=complete timeout=300 funcs="Encoder::verify; SubFrameCoding::verify; Fixed::verify; OrderSel::verify" finding=F-C07-unchained-verify
+//@ unit props=C07 tier=quick kind=complete timeout=300 funcs="Encoder::verify; SubFrameCoding::verify; Fixed::verify; OrderSel::verify"
 #[kani::proof]
 #[kani::unwind(6)]
 #[kani::stub(std::fmt::format, stub_format)]
